@@ -419,6 +419,16 @@ func (f *Frame) eval1(v ssa.Value) AV {
 	case *ssa.FieldAddr:
 		base := f.Eval(x.X)
 		fname := fieldName(x.X.Type(), x.Field)
+		if al, isAl := x.X.(*ssa.Alloc); isAl {
+			// a local copy of a configuration struct that is only read
+			// (`t := info.Deb.Triggers; len(t.Interest)`): its fields are the
+			// fields of the struct it was copied from
+			if src := readOnlyStructCopy(al); src != nil {
+				if a, ok := f.Eval(src).(avFieldAddr); ok {
+					return avFieldAddr{a.o, a.path + "." + fname}
+				}
+			}
+		}
 		switch b := base.(type) {
 		case avObj:
 			return avFieldAddr{b.o, fname}
@@ -539,6 +549,21 @@ func (f *Frame) eval1(v ssa.Value) AV {
 		return avFunc{fn: fn, free: free}
 	case *ssa.Call:
 		return f.evalCall(x)
+	case *ssa.Field:
+		// a field of a struct value that was loaded from the configuration
+		// (`t := info.Deb.Triggers; t.Interest`)
+		if ld, ok := x.X.(*ssa.UnOp); ok && ld.Op == token.MUL {
+			if a, ok := f.Eval(ld.X).(avFieldAddr); ok {
+				path := a.path + "." + fieldName(x.X.Type(), x.Field)
+				if a.o.killed[path] || a.o.killed[a.path] {
+					return nil
+				}
+				if fv, ok := a.o.Fields[path]; ok {
+					return fv
+				}
+			}
+		}
+		return nil
 	case *ssa.Lookup:
 		if x.CommaOk {
 			return nil
@@ -1003,12 +1028,30 @@ func (f *Frame) zeroOf(t types.Type) AV {
 // MakeMap whose only other uses are updates with constant keys that dominate
 // the lookup. known is false when the map or the key cannot be modelled.
 func (f *Frame) lookupLiteral(lk *ssa.Lookup) (val AV, found, known bool) {
-	mk, ok := lk.X.(*ssa.MakeMap)
-	if !ok || mk.Referrers() == nil {
-		return nil, false, false
-	}
 	key, ok := f.Eval(lk.Index).(avConst)
 	if !ok || key.v == nil {
+		return nil, false, false
+	}
+	if ld, isLd := lk.X.(*ssa.UnOp); isLd && ld.Op == token.MUL {
+		// a package-level table: a map literal assigned once, in the
+		// package initialiser, and never updated
+		g, isG := ld.X.(*ssa.Global)
+		if !isG || f.ev.c == nil {
+			return nil, false, false
+		}
+		tbl, okT := f.ev.c.globalMapTable(g)
+		if !okT {
+			return nil, false, false
+		}
+		for k, v := range tbl {
+			if k.Kind() == key.v.Kind() && constant.Compare(k, token.EQL, key.v) {
+				return avConst{v}, true, true
+			}
+		}
+		return nil, false, true
+	}
+	mk, ok := lk.X.(*ssa.MakeMap)
+	if !ok || mk.Referrers() == nil {
 		return nil, false, false
 	}
 	var hit *ssa.MapUpdate
@@ -1053,4 +1096,126 @@ func instrIndexOf(in ssa.Instruction) int {
 		}
 	}
 	return -1
+}
+
+// globalMapTable: the constant entries of a package-level map that is assigned
+// exactly once - a literal with constant keys and values, in the package
+// initialiser - and that no module code updates, deletes from or reassigns.
+func (c *Ctx) globalMapTable(g *ssa.Global) (map[constant.Value]constant.Value, bool) {
+	if c.gtables == nil {
+		c.gtables = map[*ssa.Global]map[constant.Value]constant.Value{}
+		c.gtablesBad = map[*ssa.Global]bool{}
+		for _, sp := range c.SSAPkgs {
+			init := sp.Func("init")
+			if init == nil {
+				continue
+			}
+			forEachInstr(init, func(in ssa.Instruction) {
+				st, ok := in.(*ssa.Store)
+				if !ok {
+					return
+				}
+				gg, ok := st.Addr.(*ssa.Global)
+				if !ok {
+					return
+				}
+				mk, ok := st.Val.(*ssa.MakeMap)
+				if !ok || mk.Referrers() == nil {
+					return
+				}
+				tbl := map[constant.Value]constant.Value{}
+				good := true
+				for _, ref := range *mk.Referrers() {
+					switch x := ref.(type) {
+					case *ssa.MapUpdate:
+						k, ok1 := x.Key.(*ssa.Const)
+						v, ok2 := x.Value.(*ssa.Const)
+						if !ok1 || !ok2 || k.Value == nil || v.Value == nil {
+							good = false
+							continue
+						}
+						tbl[k.Value] = v.Value
+					case *ssa.Store, *ssa.DebugRef:
+					default:
+						good = false
+					}
+				}
+				if _, dup := c.gtables[gg]; dup || !good {
+					c.gtablesBad[gg] = true
+				}
+				c.gtables[gg] = tbl
+			})
+		}
+		// any other write through the global disqualifies it
+		for _, fn := range c.ModFuncs {
+			isInit := fn.Name() == "init" && fn.Parent() == nil
+			forEachInstr(fn, func(in ssa.Instruction) {
+				switch x := in.(type) {
+				case *ssa.Store:
+					if gg, ok := x.Addr.(*ssa.Global); ok && !isInit {
+						c.gtablesBad[gg] = true
+					}
+				case *ssa.MapUpdate:
+					if gg := rootGlobal(x.Map); gg != nil {
+						c.gtablesBad[gg] = true
+					}
+				case *ssa.Call:
+					if b, ok := x.Call.Value.(*ssa.Builtin); ok && (b.Name() == "delete" || b.Name() == "clear") && len(x.Call.Args) > 0 {
+						if gg := rootGlobal(x.Call.Args[0]); gg != nil {
+							c.gtablesBad[gg] = true
+						}
+					}
+				}
+			})
+		}
+	}
+	tbl, ok := c.gtables[g]
+	if !ok || c.gtablesBad[g] {
+		return nil, false
+	}
+	return tbl, true
+}
+
+// readOnlyStructCopy: al is a local struct assigned exactly once, as a whole,
+// from a load (`t := *p`), and afterwards only read field by field; the
+// address it was loaded from, else nil.
+func readOnlyStructCopy(al *ssa.Alloc) ssa.Value {
+	if al.Referrers() == nil {
+		return nil
+	}
+	if _, isStruct := derefType(al.Type()).Underlying().(*types.Struct); !isStruct {
+		return nil
+	}
+	var src ssa.Value
+	for _, ref := range *al.Referrers() {
+		switch x := ref.(type) {
+		case *ssa.Store:
+			if x.Addr != ssa.Value(al) || src != nil {
+				return nil
+			}
+			ld, ok := x.Val.(*ssa.UnOp)
+			if !ok || ld.Op != token.MUL {
+				return nil
+			}
+			src = ld.X
+		case *ssa.FieldAddr:
+			if x.Referrers() == nil {
+				continue
+			}
+			for _, r2 := range *x.Referrers() {
+				switch y := r2.(type) {
+				case *ssa.UnOp, *ssa.DebugRef:
+				case *ssa.FieldAddr, *ssa.IndexAddr:
+					_ = y // nested reads; writes below them are not followed: be conservative
+					return nil
+				default:
+					return nil
+				}
+			}
+		case *ssa.DebugRef:
+		default:
+			return nil
+		}
+	}
+	return src
 }
